@@ -81,7 +81,8 @@ claim("C07", "container_bfs",
       "arbitrary (descending, non-adjacent, track-17-crossing) chains x 6 stream-end classes: files come back exactly.",
       "trusts mc/ref/dskfs.py (reader, writer, fsck)", "DESIGN.md 6 C07")
 claim("C08", "container_bfs",
-      "independent Disk BASIC fsck evaluated on every image produced by the write side of C07 and by fill-to-capacity histories",
+      "independent Disk BASIC fsck evaluated on every image produced by the write side of C07, by fill-to-capacity histories, by refused "
+      "additions on a live object, and by the two command line tools run onto pre-existing targets of every kind",
       "Chains in range, acyclic, terminated, disjoint; no orphan FAT entries; implied length = stream length; ML stream = header+data+trailer in "
       "chain order; nothing outside allocated granules/FAT/directory differs from a blank image.",
       "trusts mc/ref/dskfs.py fsck, written from the format description", "DESIGN.md 6 C08")
@@ -95,7 +96,8 @@ claim("C10", "cli_bfs",
       "breadth-first enumeration of command-line invocation sequences on one target path (in-process assembler.main / file_util.main, plus real "
       "subprocesses for a conformance subset) against the save-gating model",
       "{--to_bin,--to_cas,--to_dsk} x {append,no append} x 10 pre-existing targets x 3 commands, all sequences of 2 (3 in thorough): the target "
-      "changes only when absent or (append and same kind); refusals say why; what is written is a complete image holding old + new files.",
+      "changes only when absent or (append and same kind); refusals say why; what is written is a complete image holding old + new files. "
+      "The target is also named through ./, an existing and a missing directory, a literal ~ and a symbolic link.",
       "target kind decided by the independent parsers; in-process driver validated against 66 real subprocess runs", "DESIGN.md 6 C10")
 claim("C11", "cli_bfs",
       "product enumeration of program size x origin x NAM x --name x END x 7 switch subsets through assembler.main, outputs parsed by the "
@@ -118,13 +120,16 @@ claim("C16", "cli_bfs",
       "product enumeration of source image x target kind x every --files subset in three spellings x conversion chains through file_util.main, "
       "parsed by the independent readers",
       "Target lists exactly the selected files in source order with identical fields; cas>dsk>cas and dsk>cas>dsk return the original set; "
-      "--to_bin writes the data and refuses multi-file images.",
+      "--to_bin writes the data and refuses multi-file images; several outputs in one run each equal the output produced alone; sources "
+      "written the tool's way and Disk BASIC's way, with holes, gaps, short blocks, NUL-padded names, and reached through a symbolic link.",
       "sources written by the independent writers", "DESIGN.md 6 C16")
 claim("C17", "interp_bfs",
       "inductive-invariant check on a deep fingerprint of all module-level state plus exhaustive history differential over corpus^3 against "
       "fresh interpreters under three hash seeds",
       "No assembly of any corpus program (accepted or rejected at any stage) changes module-level state, so the BFS over assembly histories "
-      "closes at one state; independently every (Q1,Q2,P) triple yields for P exactly its fresh-process output; input lines are never modified.",
+      "closes at one state; independently every (Q1,Q2,P) triple yields for P exactly its fresh-process output; input lines are never modified; "
+      "every one of the 120 orders of asking one assembly for its five outputs, and every subset of assembler.py's output flags, gives each "
+      "output as it is when produced alone.",
       "fingerprint walker covers globals, class attributes, function defaults/closures/caches; workers are warm (extra history)", "DESIGN.md 6 C17")
 claim("C18", "prog_bfs",
       "metamorphic exhaustive enumeration: every accepted base program of the C02 core walk x every transformation of a finite menu (10 origin "
